@@ -117,6 +117,6 @@ def level_settings(struct_blocks, targets: Sequence[str], tier: str):
     yield "V", {k: "V" for k in keys}, "V"
     yield "M", {k: "M" for k in keys}, "M"
     tk = {block_of(struct_blocks, t)[1][0] for t in targets}
-    if keys and tier == "thorough":
+    if keys and tk and tier == "thorough":
         yield "tM-rV", {k: ("M" if k in tk else "V") for k in keys}, "V"
     yield "L", {k: "V" for k in keys}, "L"
